@@ -138,6 +138,10 @@ func Assert(tag string, c bool) {
 	}
 }
 
+// Concrete returns x; under the engine it forks over the feasible values of x
+// so that x is a constant on each path.
+func Concrete(x uint64) uint64 { return x }
+
 func Reach(tag string)          {}
 func Implies(a, b bool) bool    { return !a || b }
 func Symbolic() bool            { return false }
